@@ -334,10 +334,49 @@ func (g *c20gen) value(depth int) (interface{}, exp) {
 		v, e := g.inner()
 		p := &v
 		return &p, e
+	case 10:
+		// one pointer (or map, or slice) reachable at several places of the same value: a DAG, not a cycle
+		g.kinds["shared-pointer"] = true
+		var shared interface{}
+		var se exp
+		switch g.r.Intn(4) {
+		case 0:
+			v, e := g.inner()
+			shared, se = &v, e
+		case 1:
+			shared, se = g.outer(0)
+			if _, isPtr := shared.(*c20Outer); !isPtr {
+				o := shared.(c20Outer)
+				shared = &o
+			}
+		case 2:
+			m := map[string]interface{}{"n": 1}
+			shared, se = m, exp{kind: "map", m: map[string]exp{"n": {kind: "int", i: 1}}}
+		default:
+			t, te := g.timeVal()
+			shared, se = &t, te
+		}
+		switch g.r.Intn(3) {
+		case 0:
+			return []interface{}{shared, "between", shared}, exp{kind: "list", list: []exp{se, {kind: "string", s: "between"}, se}}
+		case 1:
+			return map[string]interface{}{"first": shared, "second": shared, "deep": []interface{}{shared}},
+				exp{kind: "map", m: map[string]exp{"first": se, "second": se, "deep": {kind: "list", list: []exp{se}}}}
+		default:
+			if ip, ok := shared.(*c20Inner); ok {
+				return c20Pair{ip, ip, []*c20Inner{ip, ip}}, exp{kind: "map", m: map[string]exp{g.key("Left"): se, g.key("Right"): se, g.key("Both"): {kind: "list", list: []exp{se, se}}}}
+			}
+			return &[]interface{}{shared, shared}, exp{kind: "list", list: []exp{se, se}}
+		}
 	default:
 		g.kinds["struct-nested"] = true
 		return g.outer(depth - 1)
 	}
+}
+
+type c20Pair struct {
+	Left, Right *c20Inner
+	Both        []*c20Inner
 }
 
 func (g *c20gen) outer(depth int) (interface{}, exp) {
@@ -634,7 +673,7 @@ func init() {
 		Floors: func(obs map[string]int64, cells map[string]bool, tier string) []string {
 			var why []string
 			for _, k := range []string{"nil", "bool", "int", "int8", "int16", "int32", "int64", "uint", "uint8", "uint16", "uint32", "uint64", "float32", "float64", "string", "time", "*time",
-				"marshaler", "*marshaler", "nil-pointer", "[]interface{}", "[]int", "nil-slice", "map[string]interface{}", "map[string]int", "nil-map", "struct", "*struct", "**struct", "struct-nested", "named-primitive-marshaler", "[]named-primitive-marshaler"} {
+				"marshaler", "*marshaler", "nil-pointer", "[]interface{}", "[]int", "nil-slice", "map[string]interface{}", "map[string]int", "nil-map", "struct", "*struct", "**struct", "struct-nested", "named-primitive-marshaler", "[]named-primitive-marshaler", "shared-pointer"} {
 				if !cells["kind:"+k] {
 					why = append(why, "Go kind never generated: "+k)
 				}
